@@ -162,6 +162,8 @@ def c08_script(rng, name, thorough):
             # verbatim, twice in a row: the first copy may consume one-shot state (the ephemeral key) without closing the attempt
             ops.append("nreplay w%d 1 %s" % (w, src))
             ops.append("nreplay w%d 1 %s" % (w, src))
+            for tag in (1, 2, 3, 4, 5):
+                ops.append("nreplay w%d 1 %s tlvlen=%d:%s" % (w, src, tag, rng.choice(["ffff", "fff8", "fff7", "0000", "8000"])))
             for _ in range(6 if thorough else 2):
                 ops.append("nreplay w%d 1 %s %s" % (w, src, rng.choice(["trunc=%d" % rng.below(200), "set=%d:%d" % (rng.choice([10, 11, 13, 14, 34, 35, 36, 37, 70, 71]), rng.below(256)),
                                                                     "flip=%d" % rng.below(1400), "app=%s" % rng.bytes(rng.range(1, 5)).hex()])))
@@ -208,6 +210,9 @@ def c09_script(rng, name, nports, offsets, mode="router", dev="tun", probe_secon
                 ops.append("nreplay w%d %d %s" % (w, victim, src))
                 if rng.chance(1, 3):
                     ops.append("nreplay w%d %d %s %s" % (w, victim, src, rng.choice(["flip=%d" % rng.below(64), "flip=%d" % rng.below(1000), "set=%d:255" % rng.range(1, 7), "trunc=%d" % rng.below(120)])))
+                if rng.chance(1, 2):
+                    # modified replay: one length field of the captured handshake datagram edited (no effect on other datagrams)
+                    ops.append("nreplay w%d %d %s tlvlen=%d:%s" % (w, victim, src, rng.choice([1, 2, 3, 4, 5, 5, 5]), rng.choice(["ffff", "fff8", "fff7", "0000", "8000", "0100"])))
         ops += drain(6)
     # probe phase: one frame per second in both directions
     for _ in range(probe_seconds):
